@@ -238,8 +238,26 @@ def _nt(node, why=''):
     return NotTemplate('template not extractable at line %s: %s %s' % (getattr(node, 'lineno', '?'), norm(node)[:70], why))
 
 
+def class_helpers(module, cls, skip=()):
+    """the plain methods of one class as the `methods` table of Interp (properties and the functions named in skip left out)"""
+    out = {}
+    cd = module.classes.get(cls)
+    if cd is None:
+        return out
+    for st in cd.body:
+        if isinstance(st, ast.FunctionDef) and st.name not in skip:
+            decs = [norm(d) for d in st.decorator_list]
+            if any(d not in ('staticmethod', 'classmethod') for d in decs):
+                continue
+            if any(isinstance(n, (ast.Yield, ast.YieldFrom)) for n in ast.walk(st)):
+                continue
+            out[st.name] = (st, 'static' if 'staticmethod' in decs else 'class' if 'classmethod' in decs else 'instance')
+    return out
+
+
 class Interp:
-    def __init__(self, decisions, cls=None, call_hook=None, depth=4, cond_hook=None, subscript_hook=None):
+    def __init__(self, decisions, cls=None, call_hook=None, depth=4, cond_hook=None, subscript_hook=None, methods=None):
+        self.methods = methods or {}  # name -> (FunctionDef, 'static' | 'class' | 'instance'): helpers of the class, interpreted in place
         self.dec = decisions          # key -> bool
         self.cls = cls                # class name for private-name mangling / self fields
         self.call_hook = call_hook
@@ -536,7 +554,40 @@ class Interp:
                 base = env.get('self')
                 if isinstance(base, Obj) and base.shape[0] == 'rec' and (f.attr + '()') in base.shape[1]:
                     return self.field(base, f.attr + '()', e)
-            # call of a method/closure bound in env? (self.helper(x))
+            # a helper of the same class (self.helper(x), cls.helper(x)): its body is interpreted in place
+            m = self.methods.get(f.attr) if isinstance(f.value, ast.Name) and f.value.id in ('self', 'cls', self.cls) else None
+            if m is not None and not any(k.arg is None for k in e.keywords) and not any(isinstance(a, ast.Starred) for a in e.args):
+                node, kind = m
+                a = node.args
+                if a.vararg or a.kwarg or a.kwonlyargs:
+                    raise _nt(e, '(helper signature)')
+                params = [x.arg for x in a.args]
+                bound = {}
+                if kind != 'static':
+                    bound[params[0]] = env.get(f.value.id)
+                    params = params[1:]
+                for p_, v_ in zip(params, e.args):
+                    bound[p_] = self.ev(v_, env)
+                for k in e.keywords:
+                    if k.arg not in params or k.arg in bound:
+                        raise _nt(e, '(helper keyword)')
+                    bound[k.arg] = self.ev(k.value, env)
+                defaults = dict(zip(params[len(params) - len(a.defaults):], a.defaults))
+                for p_ in params:
+                    if p_ not in bound:
+                        if p_ not in defaults:
+                            raise _nt(e, '(helper arity)')
+                        bound[p_] = self.ev(defaults[p_], {})
+                if len(e.args) > len(params):
+                    raise _nt(e, '(helper arity)')
+                if self.depth <= 0:
+                    raise _nt(e, '(inlining depth)')
+                self.depth -= 1
+                try:
+                    r = self.run(node.body, bound)
+                    return r[1] if r is not None and r[0] == 'return' else NONE
+                finally:
+                    self.depth += 1
             raise _nt(e, '(call)')
         if isinstance(f, ast.Name):
             if f.id == 'map' and len(e.args) == 2:
